@@ -4000,7 +4000,7 @@ def sdp(c, Gl = None, hl = None, Gs = None, hs = None, A = None, b = None,
             ind = ml
             for k in range(len(ms)):
                 blas.copy(ss[k], s, offsety = ind)
-                ind += ms[k]
+                ind += ms[k]**2
             pslack = -misc.max_step(s, dims)
             sslack = None
 
@@ -4038,7 +4038,7 @@ def sdp(c, Gl = None, hl = None, Gs = None, hs = None, A = None, b = None,
             ind = ml
             for k in range(len(ms)):
                 blas.copy(zs[k], z, offsety = ind)
-                ind += ms[k]
+                ind += ms[k]**2
             dslack = -misc.max_step(z, dims)
             pslack = None
 
@@ -4104,7 +4104,7 @@ def sdp(c, Gl = None, hl = None, Gs = None, hs = None, A = None, b = None,
             for k in range(len(ms)):
                 blas.copy(ss[k], s, offsety = ind)
                 blas.copy(zs[k], z, offsety = ind)
-                ind += ms[k]
+                ind += ms[k]**2
             pslack = -misc.max_step(s, dims)
             dslack = -misc.max_step(z, dims)
 
